@@ -2719,12 +2719,17 @@ class Trimesh(Geometry3D):
         `self.face_normals` and `self.vertex_normals`.
         """
         with self._cache:
-            if "face_normals" in self._cache:
-                self.face_normals = self._cache["face_normals"] * -1.0
-            if "vertex_normals" in self._cache:
-                self.vertex_normals = self._cache["vertex_normals"] * -1.0
+            # take the normals out of the cache before touching faces
+            face_normals = self._cache.cache.pop("face_normals", None)
+            vertex_normals = self._cache.cache.pop("vertex_normals", None)
             # fliplr makes array non-contiguous so cache checks slow
             self.faces = np.ascontiguousarray(np.fliplr(self.faces))
+            # the setter checks normals against the *current* winding
+            # so they can only be assigned after faces were reversed
+            if face_normals is not None:
+                self.face_normals = face_normals * -1.0
+            if vertex_normals is not None:
+                self.vertex_normals = vertex_normals * -1.0
         # save our normals
         self._cache.clear(exclude=["face_normals", "vertex_normals"])
 
